@@ -59,7 +59,7 @@ class RepeatedTimer:
         :param kwargs: the kwargs for the function
         """
         self.name = name
-        self.interval = interval
+        self.interval = float(interval)  # the interval can arrive as text (DEEP_POLL_TIMER)
         self.function = function
         self.args = args
         self.kwargs = kwargs
